@@ -139,3 +139,32 @@ def optIntCmp : Option Int → Option Int → Ordering
   | some a, some b => compare a b
 
 end Zed.Pruner
+
+namespace Zed.Pruner
+
+/-! ### Object / seek-entry bounds as the data writer records them (lake/data/writer.go)
+
+`WriteWithKey` copies every key into `object.Max` (guard `objectMaxGuard`, regenerated);
+`writeIndex` copies the key into `object.Min` under `objectMinGuard` (regenerated: `w.first`,
+i.e. only for the first value); `Close` and `flushSeekIndex` swap min and max for descending
+pools (`descSwap…`, regenerated).  So for values written in pool order the stored pair is
+(first, last) for ascending and (last, first) for descending pools. -/
+
+def minOnFirstOnly : Bool := Zed.Generated.C16.objectMinGuard == "w.first"
+def maxAlways : Bool := Zed.Generated.C16.objectMaxGuard == ""
+def descSwapped : Bool :=
+  Zed.Generated.C16.descSwapClose == "w.sortKey.Order == order.Desc => swap(w.object.Min,w.object.Max)" &&
+  Zed.Generated.C16.descSwapflushSeekIndex == "w.sortKey.Order == order.Desc => swap(min,max)"
+
+/-- The (min, max) pair stored for the keys written, in write order. `none` for no values, or
+    when the regenerated facts are not the ones this model knows (then nothing is claimed). -/
+def writerBounds (desc : Bool) : List K → Option (K × K)
+  | [] => none
+  | k :: ks =>
+    if minOnFirstOnly && maxAlways && descSwapped then
+      let first := k
+      let last := (k :: ks).getLast (by simp)
+      if desc then some (last, first) else some (first, last)
+    else none
+
+end Zed.Pruner
